@@ -109,6 +109,13 @@ def programs(tier: str):
             yield {"family": "scope", "block": b, "cancels": 1, "outer": False, "batch": 2}
             if b["spawns"]:
                 yield {"family": "scope", "block": dict(b, ending="raise"), "cancels": 1, "outer": False, "batch": 2}
+    # a disposable that spawns a task while entering, next to one that is still entering / fails:
+    # the roll-back cancels that task too
+    for other in ({"enter": "susp_ok", "exit": "ok", "yields": "none"}, {"enter": "susp_raise", "exit": "ok", "yields": "none"}, {"enter": "raise", "exit": "ok", "yields": "none"}, {"enter": "ok", "exit": "susp_ok", "yields": "none"}):
+        for first in (True, False):
+            sp = {"enter": "ok", "exit": "ok", "yields": "none", "spawn_in_enter": True}
+            disp = [sp, dict(other)] if first else [dict(other), sp]
+            yield {"family": "scope", "block": {"kind": "ascope", "supply": ["A"], "disp": disp, "spawns": [], "pause": True, "ending": "return"}, "cancels": 1, "outer": False}
     # the cancellation injected between two iterations of the loop (not only when the loop has
     # gone quiescent): e.g. after exactly one step of an enter / exit that takes several
     for b in outer_blocks:
